@@ -102,6 +102,68 @@ def orbit_events(g, n, rng, quick):
     return evs
 
 
+def iso_cert(g, o, n):
+    """a permutation p (1-based list) with base[u,v] = out[p[u],p[v]], found by networkx; [] if none (TLC then rejects)."""
+    if o["bad"]:
+        return []
+    h = nx.Graph()
+    h.add_nodes_from(range(n))
+    h.add_edges_from((a - 1, b - 1) for a, b in o["edges"])
+    gm = nx.isomorphism.GraphMatcher(g, h)
+    if not gm.is_isomorphic():
+        return []
+    return [gm.mapping[v] + 1 for v in range(n)]
+
+
+def lc_certs(g, graphs, n):
+    """for every returned graph a local-complementation sequence from g (breadth-first search; [0] if unreachable)."""
+    def key(h):
+        return frozenset(frozenset(e) for e in h.edges())
+
+    def lc(h, v):
+        k = h.copy()
+        nb = list(h.neighbors(v))
+        for a, b in itertools.combinations(nb, 2):
+            if k.has_edge(a, b):
+                k.remove_edge(a, b)
+            else:
+                k.add_edge(a, b)
+        return k
+    want = {}
+    for h in graphs:
+        hh = nx.Graph()
+        hh.add_nodes_from(range(n))
+        hh.add_edges_from(h.edges())
+        want[key(hh)] = None
+    g0 = nx.Graph()
+    g0.add_nodes_from(range(n))
+    g0.add_edges_from(g.edges())
+    seen = {key(g0): []}
+    frontier = [g0]
+    if key(g0) in want:
+        want[key(g0)] = []
+    while frontier and any(v is None for v in want.values()) and len(seen) < 200000:
+        nxt = []
+        for h in frontier:
+            for v in range(n):
+                k = lc(h, v)
+                kk = key(k)
+                if kk not in seen:
+                    seen[kk] = seen[key(h)] + [v + 1]
+                    nxt.append(k)
+                    if kk in want and want[kk] is None:
+                        want[kk] = seen[kk]
+        frontier = nxt
+    out = []
+    for h in graphs:
+        hh = nx.Graph()
+        hh.add_nodes_from(range(n))
+        hh.add_edges_from(h.edges())
+        c = want[key(hh)]
+        out.append(c if c is not None else [0])
+    return out
+
+
 def rgs(m):
     """repeater graph state: complete graph on m core nodes, one leaf per core node (core nodes first)."""
     g = nx.complete_graph(m)
@@ -167,4 +229,42 @@ def run(ctx):
             tid += 1
             traces.append({"tid": tid, "meta": {"n": n, "base": cz.graph_edges1(g)}, "n": n,
                            "base": cz.graph_edges1(g), "need_orbit": True, "events": evs})
+    # 7..9 vertices with certificates (permutation per isomorph, complementation sequence per orbit member) that TLC
+    # replays: the sampling branch of the isomorph finder (>= 8 vertices) and the long scripted sequences
+    for n in (8, 9):
+        for _ in range(2 if ctx.quick else 12):
+            g = nx.gnp_random_graph(n, rng.choice([0.3, 0.5]), seed=rng.randrange(2 ** 31))
+            evs = []
+            for (n_iso, thr, seed, exhaustive, sort_emit) in [(rng.randint(2, 6), rng.choice([0.05, 0.2, 0.6]), rng.randrange(100),
+                                                              False, rng.random() < 0.25) for _ in range(2)]:
+                e = iso_events(g, n, rng, [(n_iso, thr, seed, exhaustive, sort_emit)])[0]
+                e["fn"] = "iso_finder_cert"
+                e["certs"] = [iso_cert(g, o, n) for o in e["out"]["graphs"]] if e["out"]["err"] == "" else []
+                evs.append(e)
+            tid += 1
+            traces.append({"tid": tid, "meta": {"n": n, "base": cz.graph_edges1(g), "family": "big-iso"}, "n": n,
+                           "base": cz.graph_edges1(g), "need_orbit": False, "events": evs})
+    big = [(nx.path_graph(n), "linear_partial_orbit", lambda h: rm.linear_partial_orbit(h), False) for n in ((7, 8) if ctx.quick else (7, 8, 9, 10))]
+    big += [(rgs(4), "rgs_orbit_finder", lambda h: rm.rgs_orbit_finder(h), False)]
+    for _ in range(2 if ctx.quick else 10):
+        n = rng.choice([7, 8])
+        g = nx.gnp_random_graph(n, 0.4, seed=rng.randrange(2 ** 31))
+        depth = rng.choice([2, 3])
+        big.append((g, f"lc_orbit_finder(depth={depth},rand=True)",
+                    lambda h, depth=depth: rm.lc_orbit_finder(h, comp_depth=depth, rand=True, rep_allowed=False), True))
+    for g, via, f, distinct in big:
+        n = g.number_of_nodes()
+        try:
+            with warnings.catch_warnings():
+                warnings.simplefilter("ignore")
+                np.random.seed(rng.randrange(2 ** 31))
+                res = f(g.copy())
+            out = {"err": "", "graphs": [graph_out(h, n) for h in res]}
+            certs = lc_certs(g, [h for h in res], n)
+        except Exception as ex:
+            out, certs = {"err": type(ex).__name__, "graphs": []}, []
+        tid += 1
+        traces.append({"tid": tid, "meta": {"n": n, "base": cz.graph_edges1(g), "family": "big-orbit"}, "n": n,
+                       "base": cz.graph_edges1(g), "need_orbit": False,
+                       "events": [{"fn": "orbit_cert", "via": via, "distinct": distinct, "out": out, "certs": certs}]})
     ctx.judge("Trace_Graphs", traces, label="G: relabel / iso_finder / orbit explorers on enumerated graphs", xmx="4g")
